@@ -14,7 +14,7 @@ func init() {
 }
 
 func runC20(p *core.Prog, r *core.Report) {
-	r.Explain = "Decides the structure of StorageEngine.get (shared by Get, GetBytes, GetStream, GetRangeStream, ReadObject, ReadPayloadRange) on all CFG paths: (R1) a shard is read with the metadata check bypassed only if that shard works without a metabase, or after some metabase listed the object while its data was missing there — bypassing a healthy metabase otherwise overrides its 'removed' verdict; (R2) the first pass leaves a shard for the next one only on a not-found / incomplete-split-info answer or after the answer was tested against every stop class (parent, already removed, out of range, expired): a removal verdict is never treated as a shard failure, and a shard failure never ends the search; it returns from inside the loop only with success, a stop class, or complete split info; (R3) both passes visit every shard: the loops are left only by exhaustion or return (no early break that would hide a later shard); (R4) every reading entry point goes through get; (R5) an engine removal's presence scan over the shards returns success from inside the loop only on 'already removed' — 'not found' on one shard (also the answer of a per-shard garbage mark) never ends it, so a retried removal reaches the shards the first attempt missed; (R6) putToShard stores on a shard only after that shard's Exists answered (false, nil): any error answer — including the not-found a garbage mark produces — makes the caller try another shard instead of 'storing' where the object stays unreadable (shared with C19). Not covered: which shard holds what after a history of mode changes and failures (behavioural)."
+	r.Explain = "Decides the structure of StorageEngine.get (shared by Get, GetBytes, GetStream, GetRangeStream, ReadObject, ReadPayloadRange) on all CFG paths: (R1) a shard is read with the metadata check bypassed only if that shard works without a metabase, or after some metabase listed the object while its data was missing there — bypassing a healthy metabase otherwise overrides its 'removed' verdict; (R2) the first pass leaves a shard for the next one only on a not-found / incomplete-split-info answer or after the answer was tested against every stop class (parent, already removed, out of range, expired): a removal verdict is never treated as a shard failure, and a shard failure never ends the search; it returns from inside the loop only with success, a stop class, or complete split info; (R3) both passes visit every shard: the loops are left only by exhaustion or return (no early break that would hide a later shard); (R4) every reading entry point goes through get; (R5) an engine removal's presence scan over the shards returns success from inside the loop only on 'already removed' — 'not found' on one shard (also the answer of a per-shard garbage mark) never ends it, so a retried removal reaches the shards the first attempt missed; (R7) the per-shard callbacks of the engine's removals report success only when the shard's own removal call returned nil — a read-only or degraded holder fails the removal (so it is retried) instead of leaving an unmarked, readable copy behind an acknowledged removal; (R6) putToShard stores on a shard only after that shard's Exists answered (false, nil): any error answer — including the not-found a garbage mark produces — makes the caller try another shard instead of 'storing' where the object stays unreadable (shared with C19). Not covered: which shard holds what after a history of mode changes and failures (behavioural)."
 	g := p.Func(engT + "get")
 	if g == nil {
 		r.Fatalf("C20: StorageEngine.get not found")
@@ -228,6 +228,43 @@ func runC20(p *core.Prog, r *core.Report) {
 	// ---------------- R6 putToShard
 	r6 := r.Rule("C20.R6", "putToShard calls the shard's Put only after the shard's Exists answered (false, nil)", 1)
 	putOnlyWhereAbsent(p, r, r6)
+	// ---------------- R7 removal callbacks do not hide a shard's refusal
+	r7 := r.Rule("C20.R7", "the per-shard callbacks the engine's removals run (Delete, DeleteRedundantCopies, Drop, expired objects) report success only if the shard's own removal call returned nil: a shard that refuses (read-only, degraded) fails the removal instead of being skipped silently", 2)
+	nCb := 0
+	for _, fn := range p.FuncsIn("pkg/local_object_storage/engine") {
+		for _, cs := range core.CallSites([]*ssa.Function{fn}, func(s core.Site) bool {
+			return s.Name == engT+"processAddrDelete" || s.Name == engT+"processAddrDeleteOnShards"
+		}) {
+			a := cs.Call.Common().Args
+			cbv := a[len(a)-1]
+			var cb *ssa.Function
+			switch x := cbv.(type) {
+			case *ssa.MakeClosure:
+				cb = x.Fn.(*ssa.Function)
+			case *ssa.Function:
+				cb = x
+			}
+			if cb == nil {
+				if core.ParamIndex(fn, cbv) >= 0 {
+					continue // passes its own parameter on: judged at its callers
+				}
+				r7.Bad(core.FuncName(fn)+"#removal-callback", p.InstrPos(cs.Call), "the per-shard removal callback is not a function literal or a method value: cannot decide what it reports")
+				continue
+			}
+			nCb++
+			if cb.Blocks == nil || strings.HasPrefix(core.FuncName(cb), "(*pkg/local_object_storage/shard.Shard).") {
+				r7.OKTrivial(core.FuncName(fn)+"#removal-callback="+core.FuncName(cb), p.InstrPos(cs.Call), "the shard's own method is the callback")
+				continue
+			}
+			shardOp := core.Guard{Name: "shard-accepted-the-removal", Comps: []core.Comp{{Result: -1, Kind: core.ErrNil}}, Match: func(s core.Site) bool {
+				return strings.HasPrefix(s.Name, "(*pkg/local_object_storage/shard.Shard).") && (strings.HasSuffix(s.Name, ".MarkGarbage") || strings.HasSuffix(s.Name, ".Delete") || strings.HasSuffix(s.Name, ".DeleteRedundantCopies"))
+			}}
+			core.CheckSuccessFn(p, r7, cb, core.SuccessRule{ResultIdx: -1, MinReturns: 1, Guards: []core.Guard{shardOp}})
+		}
+	}
+	if nCb < 2 {
+		r.Fatalf("C20.R7: only %d removal callbacks found", nCb)
+	}
 	// ---------------- R4 entry points go through get
 	r4 := r.Rule("C20.R4", "every reading entry point of the engine goes through get", 5)
 	for _, n := range []string{"getInt", "GetBytes", "GetStream", "getRangeStream", "ReadObject", "ReadPayloadRange"} {
